@@ -89,6 +89,31 @@ def c17_board(req):
         note("clamped index beyond end != size-1")
     if sb.dateToIdx(dt(s - 5 * g), True) != 0:
         note("clamped index before start != 0")
+    # the answer to a request does not depend on what was asked before on the same table: an instant / index outside the
+    # table that was just converted WITH clamping is still rejected without it, and clamped again afterwards
+    for t, want in ((far, n - 1), (s - 5 * g, 0), (e + 7 * g + 3, n - 1), (s - 2 * g - 1, 0)):
+        if sb.dateToIdx(dt(t), True) != want:
+            note(f"clamped index({t}) != {want}")
+        try:
+            i = sb.dateToIdx(dt(t), False)
+            note(f"instant {t} outside the table accepted (index {i}) after a clamped request for the same instant")
+        except IndexError:
+            pass
+        if sb.dateToIdx(dt(t), True) != want:
+            note(f"clamped index({t}) != {want} after a rejected request for the same instant")
+    for i in (-2, n + 1):
+        sb.idxToDate(i, True)
+        try:
+            sb.idxToDate(i, False)
+            note(f"index {i} outside the table accepted after a clamped request for the same index")
+        except IndexError:
+            pass
+    for t in sorted(q for q in probes if s <= q <= e)[:40]:
+        a = sb.dateToIdx(dt(t), True)
+        b = sb.dateToIdx(dt(t), False)
+        c = sb.dateToIdx(dt(t), True)
+        if not (a == b == c) or not (ts(sb.idxToDate(a)) <= t < ts(sb.idxToDate(a)) + g):
+            note(f"index({t}) asked three times on one table: {a}, {b}, {c}")
     # Project-level conversions (no range checks by design): same algebra on the window
     p = Project("p", "P", "1")
     p["start"] = dt(s)
